@@ -531,8 +531,8 @@ def mkviol(clause, prefix, rec, upto, detail):
             "detail": detail}
 
 
-# opt-in (VERIF_C21_ROLLOUT_ONLY=1): the same protocol with warm-up length 0, i.e. REINFORCE(baseline="rollout_only").
-# NOT part of the default run: on the unchanged tree the library raises in setup() (see the report of this check)
+# the same protocol with warm-up length 0, i.e. REINFORCE(baseline="rollout_only") (before the repair recorded as F40 the
+# library raised in setup(): the training set was wrapped before the baseline policy existed)
 ROLLOUT_ONLY = dict(C=dict(MaxEpochs="2", MinWarm="0", MaxWarm="0", PolVals="{0,2}", Pol0="1", NTrain="3", NEval="2", B="2",
                            Shuffle="FALSE"), replay=True)
 
@@ -558,7 +558,7 @@ def violations(tier, seed):
     n_runs = n_steps = n_traces = 0
     per_cfg = []
     drift_notes = []
-    cfgs = CONFIGS[tier] + ([ROLLOUT_ONLY] if os.environ.get("VERIF_C21_ROLLOUT_ONLY") == "1" else [])
+    cfgs = CONFIGS[tier] + [ROLLOUT_ONLY]
     for ci, cfgd in enumerate(cfgs):
         C = cfgd["C"]
         K = {k: int(C[k]) for k in ("NTrain", "NEval", "B")}
@@ -573,9 +573,13 @@ def violations(tier, seed):
             raise tlc.TLCError("TrainingRun: parsed %d of %d states" % (len(tup), r.distinct))
         table = {(t[1], t[2], hkey(t[3])): t[4] for t in tup}
         leaves = [k for k, a in table.items() if a[0] == "done"]
+        acts = {}
+        for (_, _, h) in table:
+            if h:
+                nm = h[-1][0] + ("" if h[-1][0] != "end" else ":significant" if h[-1][1] else ":not-significant-or-not-better")
+                acts[nm] = acts.get(nm, 0) + 1
         per_cfg.append({"constants": C, "states": r.distinct, "complete_runs": len(leaves), "depth": r.depth,
-                        "action_coverage": {k: v for k, v in r.coverage().items() if k in
-                                            ("SetupWith", "TrainEpoch", "EpochEnd", "Regen")}, "tlc_wall_s": round(r.wall, 1)})
+                        "explored_actions": acts, "tlc_wall_s": round(r.wall, 1)})
         if not cfgd["replay"]:
             continue
         recs = []
